@@ -62,6 +62,8 @@ fn space_name(style: u64, f: usize, s: usize) -> String {
     match style {
         1 => format!("P{:02}_E{}", f + 1, ["1", "10", "100"][s % 3]),
         2 => format!("Planta {} sal\u{f3}n {}", f + 1, ["a", "a b", "a b c"][s % 3]),
+        // names that are numbers (door numbers)
+        3 => format!("{}0{}", f + 1, s + 1),
         _ => format!("P{:02}_E{:02}", f + 1, s + 1),
     }
 }
@@ -195,7 +197,7 @@ pub fn generate_with_features(seed: u64) -> (String, Features) {
     let x_origin = *rng.pick(&[0.0, 0.0, -2.5]);
     let y_origin = *rng.pick(&[0.0, 0.0, 3.25]);
     let azimuth = *rng.pick(&[0.0, 0.0, 37.5, 270.0]);
-    let name_style = [0u64, 0, 1, 2][(seed % 4) as usize];
+    let name_style = [0u64, 0, 1, 2, 3][(seed % 5) as usize];
     feat.name_style = name_style;
     feat.floors = n_floors;
     feat.spaces = n_floors * n_spaces;
